@@ -297,7 +297,11 @@ theorem sound_expr (hT : TablesOk T) (hP : ∀ d ∈ P, fnOk k d = true) (ih : S
       simp only at hpy
       have hall := ih.args _ _ _ _ _ _ _ hsargs hag hdl hok
       have hvals := args_vals P G L env ρ g args sargs vs hall ha
-      cases tgt with
+      by_cases hL : L.contains tgt = true
+      · rw [if_pos hL] at hpy; cases hpy
+      rw [if_neg hL] at hpy
+      generalize resolveCall G tgt = tgt' at h hpy
+      cases tgt' with
       | unresolved => simp at h
       | known key =>
         simp only at h hpy
@@ -334,6 +338,8 @@ theorem sound_expr (hT : TablesOk T) (hP : ∀ d ∈ P, fnOk k d = true) (ih : S
             simp at hn
           | cons m ms =>
             exact ih.fnSubst d m ms s h hd g vs v hpy ρ hvals
+  | callKw tgt args =>
+    rw [evalExpr] at hpy; cases hpy
   | unsupported =>
     rw [trExpr] at h; cases h
 
